@@ -154,6 +154,8 @@ bool FeatureChecker::isRateDisallowedInSymbolic(const expression_t& e)
         }
         return false;
     }
+    if (e.get_kind() == Constants::FORALL)  // rates of clock arrays: forall (i : id_t) x[i]' == 2
+        return isRateDisallowedInSymbolic(e.get(1));
     return false;
 }
 
